@@ -14,6 +14,7 @@ import (
 	"encoding/json"
 	"errors"
 	"fmt"
+	"golang.org/x/oauth2"
 	"io"
 	"mime"
 	"net/http"
@@ -64,6 +65,9 @@ type Script struct {
 	PreregSecret bool   `json:"prereg_secret,omitempty"`
 	DCR          bool   `json:"dcr"`
 	InitialToken bool   `json:"initial_token"`
+	// Hook: AuthorizationCodeHandlerConfig.NewTokenSource is set: "ok" builds the default source, "reject" refuses
+	// the freshly exchanged token (the application's own vetting): Authorize then fails and nothing is installed.
+	Hook string `json:"hook,omitempty"`
 	// Clean is the generator's promise that nothing in the universe is
 	// defective: used only for the vacuity guard (Authorize must then succeed).
 	Clean bool `json:"clean"`
@@ -682,6 +686,7 @@ func gen(rt *rapid.T) Script {
 	}
 	s.PreregSecret = rapid.Bool().Draw(rt, "prereg-secret")
 	s.InitialToken = rapid.IntRange(0, 2).Draw(rt, "initial-token") == 0
+	s.Hook = rapid.SampledFrom([]string{"", "", "", "ok", "reject", "reject"}).Draw(rt, "hook")
 
 	// ---- authorization servers
 	pool := []string{"https://as.example", "https://as.example", "https://as.example/tenant1", "https://login.example/realms/mcp/",
@@ -1020,6 +1025,15 @@ func run(s Script) (res vt.Result) {
 		cfg.DynamicClientRegistrationConfig = &auth.DynamicClientRegistrationConfig{Metadata: &oauthex.ClientRegistrationMetadata{
 			RedirectURIs: []string{redirectURL}, ClientName: "c15", GrantTypes: []string{"authorization_code"},
 		}}
+	}
+	if s.Hook != "" {
+		cfg.NewTokenSource = func(ctx context.Context, c *oauth2.Config, t *oauth2.Token) (oauth2.TokenSource, error) {
+			if s.Hook == "reject" && !u.priming {
+				return nil, errors.New("token refused by the application")
+			}
+			return c.TokenSource(ctx, t), nil
+		}
+		res.Class("token_source_hook_" + s.Hook)
 	}
 	h, err := auth.NewAuthorizationCodeHandler(cfg)
 	if err != nil {
@@ -1371,7 +1385,10 @@ func run(s Script) (res vt.Result) {
 
 	// ---- vacuity guard: a clean universe must be authorised
 	flowExpected := s.Status == 401 || (s.Status == 403 && bearerErr == "insufficient_scope")
-	if s.Clean && flowExpected {
+	if s.Hook == "reject" && authErr == nil && installed {
+		res.Failf("the application's NewTokenSource hook refused the exchanged token, yet Authorize succeeded and a new token is installed")
+	}
+	if s.Clean && flowExpected && s.Hook != "reject" {
 		switch {
 		case authErr != nil && !canonicalClean(&s):
 			// C15 is a safety property: a handler that refuses more than today's (unquoted URL in the challenge,
